@@ -356,10 +356,33 @@ pub fn run(tier: &Tier) -> i32 {
     sweep_adjust(&rep, &c);
     cli_div_errors(&rep, &c);
 
+    // histories
+    let seq_depth = if tier.thorough { 4 } else { 3 };
+    let seq = {
+        use crate::ast::b::*;
+        let focus = vec![
+            Instr::MulDiv(MulOp::Mul, r8("bl")),
+            Instr::MulDiv(MulOp::Mul, r16("bx")),
+            Instr::MulDiv(MulOp::Imul, r16("bx")),
+            Instr::MulDiv(MulOp::Imul, direct(W::W, 0x0020)),
+            Instr::MulDiv(MulOp::Div, r8("bl")),
+            Instr::MulDiv(MulOp::Div, r16("cx")),
+            Instr::MulDiv(MulOp::Idiv, r16("cx")),
+            Instr::MulDiv(MulOp::Idiv, direct(W::B, 0x0021)),
+            Instr::Adj(AdjOp::Aaa),
+            Instr::Adj(AdjOp::Daa),
+            Instr::Adj(AdjOp::Das),
+            Instr::Adj(AdjOp::Aam),
+            Instr::Adj(AdjOp::Aad),
+            Instr::Adj(AdjOp::Cbw),
+            Instr::Adj(AdjOp::Cwd),
+        ];
+        crate::seqx::explore_sequences(&rep, &c, &focus, &crate::seqx::context_alphabet(), seq_depth, &crate::seqx::default_inits())
+    };
     let mut cov = Coverage::default();
     cov.exhaustive = true;
-    cov.rule = "every case = (source instruction, pre-state) executed through Preprocessor+Interpreter and compared with the reference MUL/DIV/BCD semantics (outcome NEXT vs INT 0, AX/DX, CF/OF, frame). Byte forms: all 256 AL x all 256 operands x a set of AH values (all 256 in thorough); word forms: (DX,AX,operand) boundary lattice cubed plus, for every divisor (every 7th in quick), the dividends at the quotient-overflow boundary; all 2^16 AX x AF x CF for the eight adjust instructions; every operand form incl. the implicit registers as explicit operand; 8 end-to-end divide-error programs through the CLI binary".into();
-    cov.bounds = json!({"ah_values": ahs.len(), "word_lattice": lat.len(), "divisor_stride": stride, "forms": fs.len(), "tier": tier.name()});
+    cov.rule = "every case = (source instruction, pre-state) executed through Preprocessor+Interpreter and compared with the reference MUL/DIV/BCD semantics (outcome NEXT vs INT 0, AX/DX, CF/OF, frame). Byte forms: all 256 AL x all 256 operands x a set of AH values (all 256 in thorough); word forms: (DX,AX,operand) boundary lattice cubed plus, for every divisor (every 7th in quick), the dividends at the quotient-overflow boundary; all 2^16 AX x AF x CF for the eight adjust instructions; every operand form incl. the implicit registers as explicit operand; 8 end-to-end divide-error programs through the CLI binary Histories: every sequence of up to 3 (thorough 4) instructions over the property's instructions plus a 16-instruction context alphabet (register, memory, stack and flag traffic), with at least one of the property's instructions, as ONE program on ONE machine and ONE Interpreter object from 3 initial states, compared with the reference after every step (whole memory on every 16th run)".into();
+    cov.bounds = json!({"ah_values": ahs.len(), "word_lattice": lat.len(), "divisor_stride": stride, "forms": fs.len(), "sequence_depth": seq_depth, "sequences": seq.sequences, "sequence_steps": seq.steps, "sequence_whole_memory_audits": seq.audits, "tier": tier.name()});
     cov.assumptions = common_assumptions();
     cov.assumptions.push("IDIV whose quotient is exactly -2^(w-1): divide error (8086) or result (later CPUs) both accepted".into());
     cov.assumptions.push("DAA/DAS/AAA/AAS on non-BCD inputs: either the 8086 manual's or the later SDM's pseudo code is accepted where they differ".into());
